@@ -223,10 +223,10 @@ def run_bounded(run, tier, seed):
         latt = bool(spec.get('latt'))
         if und:
             # all undirected graphs n = 4 (scripts to depth d) and n = 5 (first attempt only)
-            d4 = (5 if thorough else 3) + (1 if latt else 0)
+            d4 = (5 if (thorough and not latt) else 4 if thorough else 3) + (1 if latt else 0)
             for weighted in (False, True):
-                for ch in chunks(list(range(G.n_und(4))), 4):
-                    tasks.append((name, 4, ch, weighted, d4, 6 if not thorough else 24, [seed + 1, seed + 2]))
+                for ch in chunks(list(range(G.n_und(4))), 16 if thorough else 4):
+                    tasks.append((name, 4, ch, weighted, d4, 6, [seed + 1, seed + 2]))
             bits5 = list(range(G.n_und(5))) if thorough else sorted(rs.choice(G.n_und(5), 96, replace=False).tolist())
             for ch in chunks(bits5, 64 if thorough else 8):
                 tasks.append((name, 5, ch, True, 3 + (1 if latt else 0), 3, [seed + 3]))
@@ -238,7 +238,7 @@ def run_bounded(run, tier, seed):
         'rewiring-routines-small-scope',
         bounds={'undirected': 'all 64 labelled graphs n=4 (binary and weighted {1,2,3} by position), %s graphs n=5' % ('all 1024' if thorough else '256 sampled'),
                 'directed': '%s labelled digraphs n=4, weighted' % ('all 4096' if thorough else '192 sampled'),
-                'scripts': 'every sequence of random choices up to depth %s draws (undirected n=4 / directed; latticisers one more for the node ordering; n=5: 3; coin in {.25,.75}; node orderings: first %s permutations), then a seeded continuation' % ('5/2' if thorough else '3/2', '24' if thorough else '6'),
+                'scripts': 'every sequence of random choices up to depth %s draws (undirected n=4 / directed; latticisers one more for the node ordering; n=5: 3; coin in {.25,.75}; node orderings: first %s permutations), then a seeded continuation' % ('5 (latticisers 4+1)/2' if thorough else '3/2', '6'),
                 'budgets': 'itr = 0, 1.5/k, 2.5/k (0, 1, 2 outer iterations); latticisers itr = 0, 1; maxswap = 0, 1, 2'},
         rule='one case = (routine, input graph, budget, choice script); non-trivial = at least one accepted swap; distinct by (routine, graph bytes, script)',
         exhaustive=thorough)
